@@ -1,0 +1,168 @@
+//go:build verif
+
+package verifspec
+
+// Contracts for compiler/natives/src/sync/atomic (property C13): the sequential specification of each primitive.
+// GopherJS schedules goroutines cooperatively and none of these functions yields, so no interleaving exists inside
+// them (the assumption comes from the scheduler, property C03's domain).  deref(p) is the value p points to.
+
+//@ func natives:sync/atomic.SwapInt32
+//@ property C13
+//@   word 32
+//@   requires addr != nil
+//@   ensures result == old(deref(addr)) && deref(addr) == new
+
+//@ func natives:sync/atomic.CompareAndSwapInt32
+//@ property C13
+//@   word 32
+//@   requires addr != nil
+//@   ensures result == (old(deref(addr)) == old)
+//@   ensures result ==> deref(addr) == new
+//@   ensures !result ==> deref(addr) == old(deref(addr))
+
+//@ func natives:sync/atomic.AddInt32
+//@ property C13
+//@   word 32
+//@   requires addr != nil
+//@   ensures result == ((old(deref(addr)) + delta + 2147483648) % 4294967296) - 2147483648 && deref(addr) == result
+
+//@ func natives:sync/atomic.LoadInt32
+//@ property C13
+//@   word 32
+//@   requires addr != nil
+//@   ensures result == deref(addr) && deref(addr) == old(deref(addr))
+
+//@ func natives:sync/atomic.StoreInt32
+//@ property C13
+//@   word 32
+//@   requires addr != nil
+//@   ensures deref(addr) == val
+
+//@ func natives:sync/atomic.SwapInt64
+//@ property C13
+//@   word 32
+//@   requires addr != nil
+//@   ensures result == old(deref(addr)) && deref(addr) == new
+
+//@ func natives:sync/atomic.CompareAndSwapInt64
+//@ property C13
+//@   word 32
+//@   requires addr != nil
+//@   ensures result == (old(deref(addr)) == old)
+//@   ensures result ==> deref(addr) == new
+//@   ensures !result ==> deref(addr) == old(deref(addr))
+
+//@ func natives:sync/atomic.AddInt64
+//@ property C13
+//@   word 32
+//@   requires addr != nil
+//@   ensures result == ((old(deref(addr)) + delta + 9223372036854775808) % 18446744073709551616) - 9223372036854775808 && deref(addr) == result
+
+//@ func natives:sync/atomic.LoadInt64
+//@ property C13
+//@   word 32
+//@   requires addr != nil
+//@   ensures result == deref(addr) && deref(addr) == old(deref(addr))
+
+//@ func natives:sync/atomic.StoreInt64
+//@ property C13
+//@   word 32
+//@   requires addr != nil
+//@   ensures deref(addr) == val
+
+//@ func natives:sync/atomic.SwapUint32
+//@ property C13
+//@   word 32
+//@   requires addr != nil
+//@   ensures result == old(deref(addr)) && deref(addr) == new
+
+//@ func natives:sync/atomic.CompareAndSwapUint32
+//@ property C13
+//@   word 32
+//@   requires addr != nil
+//@   ensures result == (old(deref(addr)) == old)
+//@   ensures result ==> deref(addr) == new
+//@   ensures !result ==> deref(addr) == old(deref(addr))
+
+//@ func natives:sync/atomic.AddUint32
+//@ property C13
+//@   word 32
+//@   requires addr != nil
+//@   ensures result == (old(deref(addr)) + delta) % 4294967296 && deref(addr) == result
+
+//@ func natives:sync/atomic.LoadUint32
+//@ property C13
+//@   word 32
+//@   requires addr != nil
+//@   ensures result == deref(addr) && deref(addr) == old(deref(addr))
+
+//@ func natives:sync/atomic.StoreUint32
+//@ property C13
+//@   word 32
+//@   requires addr != nil
+//@   ensures deref(addr) == val
+
+//@ func natives:sync/atomic.SwapUint64
+//@ property C13
+//@   word 32
+//@   requires addr != nil
+//@   ensures result == old(deref(addr)) && deref(addr) == new
+
+//@ func natives:sync/atomic.CompareAndSwapUint64
+//@ property C13
+//@   word 32
+//@   requires addr != nil
+//@   ensures result == (old(deref(addr)) == old)
+//@   ensures result ==> deref(addr) == new
+//@   ensures !result ==> deref(addr) == old(deref(addr))
+
+//@ func natives:sync/atomic.AddUint64
+//@ property C13
+//@   word 32
+//@   requires addr != nil
+//@   ensures result == (old(deref(addr)) + delta) % 18446744073709551616 && deref(addr) == result
+
+//@ func natives:sync/atomic.LoadUint64
+//@ property C13
+//@   word 32
+//@   requires addr != nil
+//@   ensures result == deref(addr) && deref(addr) == old(deref(addr))
+
+//@ func natives:sync/atomic.StoreUint64
+//@ property C13
+//@   word 32
+//@   requires addr != nil
+//@   ensures deref(addr) == val
+
+//@ func natives:sync/atomic.SwapUintptr
+//@ property C13
+//@   word 32
+//@   requires addr != nil
+//@   ensures result == old(deref(addr)) && deref(addr) == new
+
+//@ func natives:sync/atomic.CompareAndSwapUintptr
+//@ property C13
+//@   word 32
+//@   requires addr != nil
+//@   ensures result == (old(deref(addr)) == old)
+//@   ensures result ==> deref(addr) == new
+//@   ensures !result ==> deref(addr) == old(deref(addr))
+
+//@ func natives:sync/atomic.AddUintptr
+//@ property C13
+//@   word 32
+//@   requires addr != nil
+//@   ensures result == (old(deref(addr)) + delta) % 4294967296 && deref(addr) == result
+
+//@ func natives:sync/atomic.LoadUintptr
+//@ property C13
+//@   word 32
+//@   requires addr != nil
+//@   ensures result == deref(addr) && deref(addr) == old(deref(addr))
+
+//@ func natives:sync/atomic.StoreUintptr
+//@ property C13
+//@   word 32
+//@   requires addr != nil
+//@   ensures deref(addr) == val
+
